@@ -950,9 +950,78 @@ fn cli_hostile_keyrings(rep: &Report) {
     rep.extra("cli_hostile_keyring_runs_completed_with_exit_0", json!(completed.load(std::sync::atomic::Ordering::Relaxed)));
 }
 
+/// Inputs that are AUTHENTIC under the key or password in use but do not have the usual shape: locked private keys that seal
+/// 0..64 bytes instead of 32 (only a holder of the password can make them -- a backup tool, another implementation), and
+/// files whose chunk lengths grow, shrink or alternate. The outcome is a value or an error, never a panic.
+fn authentic_oddities(rep: &Report, ids: &[Ident]) {
+    let seed = rep.seed;
+    // (a) locked keys sealing L bytes
+    let salt = derive32(seed, "c09-odd-salt");
+    let k = r::pass_key(b"c09", &salt);
+    let alice = Party::new(seed, "alice", "alicepw");
+    let p = plaintext(seed ^ 0x9b, 20);
+    let lens: Vec<usize> = vec![0, 1, 16, 31, 32, 33, 34, 47, 48, 64, 100];
+    lens.par_iter().for_each(|&l| {
+        rep.eval(3);
+        rep.nontrivial(format!("authentic-locked-key-sealing-{}", l).as_bytes());
+        let body = derive(seed, "c09-odd-sk", l);
+        let mut blob = r::SK_MAGIC.to_vec();
+        blob.extend_from_slice(&salt);
+        blob.extend_from_slice(&r::aead_seal(&k, &[0u8; 12], &r::SK_MAGIC, &body));
+        let s = r::b64(&blob);
+        let case = json!({"kind":"odd-key","sealed":l,"string":s});
+        if kra::AVAILABLE {
+            if let Err(m) = guarded(|| kra::unlock(&s, b"c09")) {
+                rep.violation("panic/authentic-locked-key-of-unusual-length", case.clone(), format!("unlocking a locked key that authentically seals {} bytes panicked: {}", l, m));
+            }
+        }
+        let sc = Scratch::new();
+        for args in [vec!["key", "extract-pub", s.as_str(), "--env-pass"], vec!["key", "change-pass", s.as_str(), "--env-pass"]] {
+            let o = proc::run(&Cmd::new(&args).env("KESTREL_PASSWORD", "c09").env("KESTREL_NEW_PASSWORD", "n"), &sc.0);
+            if let Err(e) = o.well_behaved() {
+                rep.violation("panic/authentic-locked-key-of-unusual-length", case.clone(), format!("kestrel {} {} on a locked key that authentically seals {} bytes: {} ({})", args[0], args[1], l, e, o.summary().chars().take(200).collect::<String>()));
+            }
+        }
+        // as the recipient's PrivateKey in a keyring
+        let kr = format!("{}\n{}", alice.entry(false), proc::keyring_entry("odd", &r::encode_pk(&ids[1].pk), Some(&s)));
+        sc.write("kr.txt", kr.as_bytes());
+        sc.write("ct.ktl", &r::write_key_file(&alice.sk, &ids[1].pk, &derive32(seed, "c09-odd-e"), &derive32(seed, "c09-odd-p"), &p, &[20]).unwrap());
+        let o = proc::run(&Cmd::new(&["decrypt", "ct.ktl", "-t", "odd", "-k", "kr.txt", "-o", "out.bin", "--env-pass"]).env("KESTREL_PASSWORD", "c09"), &sc.0);
+        if let Err(e) = o.well_behaved() {
+            rep.violation("panic/authentic-locked-key-of-unusual-length", case, format!("kestrel decrypt with a keyring PrivateKey that authentically seals {} bytes: {}", l, e));
+        }
+    });
+    // (b) chunk-length profiles
+    let tkey = derive32(seed, "c09-odd-tkey");
+    let profiles: Vec<Vec<usize>> = vec![vec![0, 1, 15], vec![100, 150, 180], vec![1, 2, 3, 4, 5, 6, 7, 8], vec![8, 7, 6, 5, 4, 3, 2, 1], vec![1, 65536, 1], vec![65536, 1, 65536], vec![10, 1000, 10, 1000, 10], vec![1, 10, 100, 1000, 10_000, 65_536], vec![65_536, 10_000, 1000, 100, 10, 1], vec![5, 5, 6, 6, 7, 7, 65_000, 7]];
+    let kdec = Subject::KeyDec { r: hx(&ids[2].sk), r_pub: hx(&ids[2].pk) };
+    profiles.par_iter().for_each(|ch| {
+        rep.eval(2);
+        rep.nontrivial(format!("chunk-profile-{:?}", ch).as_bytes());
+        let pt = plaintext(seed ^ 0x9c, ch.iter().sum());
+        let case = json!({"kind":"odd-file","chunking":ch});
+        let f = r::write_key_file(&ids[0].sk, &ids[2].pk, &derive32(seed, "c09-odd-e2"), &derive32(seed, "c09-odd-p2"), &pt, ch).unwrap();
+        let (res, out) = run_plain(&kdec, &f);
+        if let Res::Panic(m) = &res {
+            rep.violation("file/panic", case.clone(), format!("key_decrypt of an authentic file with chunk lengths {:?} panicked: {}", ch, m));
+        } else if !res.is_ok() || out != pt {
+            rep.violation("file/authentic-rejected", case.clone(), format!("key_decrypt of an authentic file with chunk lengths {:?}: {}", ch, res.brief()));
+        }
+        let t = r::write_chunks(&tkey, &r::PASS_MAGIC, &pt, ch);
+        let (res, out) = run_plain(&Subject::TinyDec { key: hx(&tkey), aad: hx(&r::PASS_MAGIC), cs: 65536 }, &t);
+        if let Res::Panic(m) = &res {
+            rep.violation("file/panic", case, format!("chunk decryption (password-mode associated data) of an authentic stream with chunk lengths {:?} panicked: {}", ch, m));
+        } else if !res.is_ok() || out != pt {
+            rep.violation("file/authentic-rejected", case, format!("chunk decryption of an authentic stream with chunk lengths {:?}: {}", ch, res.brief()));
+        }
+    });
+    rep.extra("authentic_oddities", json!({"locked_key_lengths":lens.len(),"chunk_profiles":profiles.len()}));
+}
+
 pub fn run(rep: &'static Report) {
     rep.set_rule("E-GRID per untrusted-input surface (all byte strings of length <= 2, every prefix of authentic files, every message length for noise_decrypt and the AEAD wrappers, every length/character-class of key strings, hostile values of every header field under heap accounting) and E-PROC: every argument vector of length <= 3 (quick) / <= 4 (thorough) over a 28-token vocabulary under two environments, as real processes. distinct non-trivial = distinct inputs per surface");
     rep.rule_add("CLI argument vectors and the per-slot value grid run as real processes; library compiled with overflow checks.");
+    rep.rule_add("Authentic but unusual: locked keys sealing 0..100 bytes (unlock, extract-pub, change-pass, keyring use); 10 chunk-length profiles (growing, shrinking, alternating) in both modes.");
     rep.rule_add("Hostile keyrings: 30 entry shapes (incl. runs of 200 000 skipped lines) x 3 positions among genuine entries x {encrypt, decrypt with known sender, decrypt with unknown sender}, commands that otherwise complete.");
     rep.assume("the keyring parser surface is enumerated by C17; all C03 graph states also run under the panic guard");
     rep.assume("stdin is /dev/null and the process has no controlling terminal (setsid), so prompts cannot block; wall limit 30 s per process");
@@ -977,6 +1046,8 @@ pub fn run(rep: &'static Report) {
     mark("cli_option_junk", &mut phases);
     cli_hostile_keyrings(rep);
     mark("cli_hostile_keyrings", &mut phases);
+    authentic_oddities(rep, &ids);
+    mark("authentic_oddities", &mut phases);
     rep.extra("phase_end_seconds", json!(phases.iter().map(|(n, t)| json!([n, (t * 10.0).round() / 10.0])).collect::<Vec<_>>()));
     rep.set_exhaustive(true);
 }
@@ -984,6 +1055,7 @@ pub fn run(rep: &'static Report) {
 pub fn replay(rep: &'static Report, case: &Value) {
     let ids = idents(rep.seed);
     match case["kind"].as_str().unwrap_or("") {
+        "odd-key" | "odd-file" => authentic_oddities(rep, &idents(rep.seed)),
         "file-format" => {
             let x = unhx(case["bytes"].as_str().unwrap());
             let want = x[..] == r::KEY_MAGIC[..] || x[..] == r::PASS_MAGIC[..];
